@@ -16,8 +16,13 @@ for f in sorted((V / "known_findings.d").glob("C*.json")):
 (V / "known_findings.json").write_text(json.dumps(kf, indent=1) + "\n")
 props = [json.loads(l)["id"] for l in (V / "properties.jsonl").read_text().splitlines() if l.strip()]
 checks, na = [], []
+# only properties the lead has integrated (check green on the unchanged tree, reviewed) are claimed
+ready = set((V / "tools/manifest_ready.txt").read_text().split())
 for pid in props:
     e = src["checks"].get(pid)
+    if e is not None and pid not in ready:
+        na.append({"property_id": pid, "reason": "check under construction / not yet integrated by the lead; no claim is made"})
+        continue
     if e is None or e.get("not_applicable"):
         na.append({"property_id": pid, "reason": (e or {}).get("not_applicable", "check not built yet in this development; no claim is made")})
         continue
